@@ -276,10 +276,17 @@ impl C09 {
         let sts3: Vec<String> = sys3.states.iter().map(|s| c3.get_symbol_name(s.symbol).unwrap_or("").to_string()).collect();
         let outs3: Vec<String> = sys3.outputs.iter().map(|o| c3[o.name].to_string()).collect();
         rec.label("name-clause:checked");
+        // a bad/constraint that is directly a state or input symbol takes that symbol's name as its
+        // label; the writer's alias scheme then collides with the label on re-parse
+        let label_on_symbol = sys2
+            .bad_states
+            .iter()
+            .chain(sys2.constraints.iter())
+            .any(|e| ctx[*e].is_symbol());
         for (what, a, b) in [("input", &ins, &ins3), ("state", &sts, &sts3), ("output", &outs, &outs3)] {
             if a != b {
                 return Err(Failure::new(
-                    format!("btor2-roundtrip/names-changed/{}", what),
+                    format!("btor2-roundtrip/names-changed/{}{}", what, if label_on_symbol { "/label-on-symbol" } else { "" }),
                     format!("{}: {} names {:?} became {:?}\n{}", origin, what, a, b, text2.chars().take(3000).collect::<String>()),
                 ));
             }
